@@ -39,6 +39,8 @@ type Node struct {
 	S    string // decoded string
 	A    []*Node
 	O    []Member
+	Pos  int // byte offsets of the value in the parsed input
+	End  int
 }
 
 type parser struct {
@@ -114,6 +116,15 @@ func (p *parser) ws() {
 }
 
 func (p *parser) value(depth int) (*Node, error) {
+	st := p.pos
+	n, err := p.value1(depth)
+	if n != nil {
+		n.Pos, n.End = st, p.pos
+	}
+	return n, err
+}
+
+func (p *parser) value1(depth int) (*Node, error) {
 	if depth > 2000 {
 		return nil, p.errf("nesting too deep")
 	}
